@@ -105,6 +105,10 @@ func (a *AuthenStart) Validate() error {
 	if a.Type == AuthenTypeNotSet {
 		return fmt.Errorf("bad value for AuthenType; AuthenTypeNotSet not allowed for AuthenStart packets")
 	}
+	// each of these has a one byte length field on the wire
+	if len(a.User) > 0xff || len(a.Port) > 0xff || len(a.RemAddr) > 0xff || len(a.Data) > 0xff {
+		return fmt.Errorf("user, port, rem_addr and data must not exceed 255 bytes each")
+	}
 	for _, t := range []Field{a.Action, a.PrivLvl, a.Type, a.Service, a.User, a.Port, a.RemAddr, a.Data} {
 		if err := t.Validate(a.Type); err != nil {
 			return err
@@ -244,6 +248,10 @@ type AuthenContinue struct {
 
 // Validate all fields on this type
 func (a *AuthenContinue) Validate() error {
+	// each of these has a two byte length field on the wire
+	if len(a.UserMessage) > 0xffff || len(a.Data) > 0xffff {
+		return fmt.Errorf("user_msg and data must not exceed 65535 bytes each")
+	}
 	// validate
 	for _, t := range []Field{a.UserMessage, a.Data} {
 		if err := t.Validate(nil); err != nil {
@@ -364,6 +372,10 @@ type AuthenReply struct {
 
 // Validate all fields on this type
 func (a *AuthenReply) Validate() error {
+	// each of these has a two byte length field on the wire
+	if len(a.ServerMsg) > 0xffff || len(a.Data) > 0xffff {
+		return fmt.Errorf("server_msg and data must not exceed 65535 bytes each")
+	}
 	// validate
 	for _, t := range []Field{a.Status} {
 		if err := t.Validate(nil); err != nil {
